@@ -38,6 +38,16 @@ def rdI (tbl : List Int) (i : Nat) : M Int :=
 def chkS (bits : Nat) (x : Int) : M Int :=
   if -(2 : Int) ^ (bits - 1) ≤ x ∧ x < (2 : Int) ^ (bits - 1) then .ok x else .error (.overflow "signed arithmetic")
 
+/-- `n` units of the source starting at index `i` (a fault if the block leaves the source) -/
+def rdRange (mem : List Nat) (i n : Nat) : M (List Nat) :=
+  if i + n ≤ mem.length then .ok ((mem.drop i).take n) else .error (.oobRead (i + n))
+
+/-- one call on an `ST::format_writer`: `append(data, size)` with the bytes passed, `append_char(ch, count)` -/
+inductive Ev where
+  | append (bs : List Nat)
+  | appendChar (c n : Nat)
+  deriving Repr, DecidableEq
+
 abbrev rd8 := rd
 abbrev rd16 := rd
 abbrev rd32 := rd
